@@ -36,6 +36,8 @@ def capture(mb, sig, sample):
             continue
         if td["name"] not in model_names:
             continue  # interpreter-created temporaries (e.g. BatchMatMul_scratch_buffer) are not tensors of the model
+        if 0 in list(td["shape"]):
+            continue  # a tensor without elements has no content (the interpreter refuses to return it; the library skips it too)
         out.append((td["name"], np.array(it.get_tensor(td["index"], sgi)), td))
     runner = it.get_signature_runner(sig)
     ins = [d["name"] for d in runner.get_input_details().values()]
